@@ -150,6 +150,10 @@ func genVV(t *rapid.T, depth int) VV {
 			if rapid.IntRange(0, 3).Draw(t, "resid") == 0 {
 				v.F = append(v.F, VF{Name: "resid", V: genVV(t, depth+1)})
 			}
+			if rapid.IntRange(0, 9).Draw(t, "emptyname") == 3 {
+				// the empty string is a legal field name (and a zero-byte dictionary entry)
+				v.F = append(v.F, VF{Name: "", V: genVV(t, depth+1)})
+			}
 			if depth == 0 && rapid.IntRange(0, 15).Draw(t, "wide") == 0 {
 				// many fields: field id / offset sizes above one byte, is_large objects
 				n := []int{40, 256, 300}[rapid.IntRange(0, 2).Draw(t, "widen")]
